@@ -309,6 +309,9 @@ func (a *Real32) SetVariable(i, n, order int) error {
     return fmt.Errorf("order `%d' not supported by this type", order)
   }
   a.Alloc(n, order)
+  // Alloc keeps the storage of a scalar that already has n variables
+  // and this order; it may hold derivatives of an earlier computation
+  a.ResetDerivatives()
   if order > 0 {
     a.Derivative[i] = 1
   }
